@@ -44,7 +44,9 @@ type formDesc struct {
 
 var fieldTypes = []string{"boolean", "fixed", "hidden", "jid-multi", "jid-single", "list-multi", "list-single", "text-multi", "text-private", "text-single"}
 
-func isMulti(t string) bool { return t == "list-multi" || t == "jid-multi" || t == "text-multi" }
+func isMulti(t string) bool {
+	return t == "list-multi" || t == "jid-multi" || t == "text-multi" || t == "hidden"
+}
 func isList(t string) bool  { return t == "list-single" || t == "list-multi" }
 
 var jidTexts = []string{"a@example.net", "example.net", "not a jid@", "@", "A@EXAMPLE.NET/R", "a@example.net/r s", "", "x@y/z\n", "ß@example.net"}
